@@ -400,3 +400,177 @@ def fasta_bytes(plain) -> bytes:
         if data.endswith(last_eol):
             data = data[: -len(last_eol)]
     return data
+
+
+# --------------------------------------------------------------------------
+# Consistent taggings of PretextView-model maps (C09, C10, C16, C17)
+
+NAME_TAGS = ["X", "Y", "Z", "W", "U", "V", "B1", "B2", "X1", "I", "II", "III", "IV", "I_II", "2RL"]
+PREFIXES = ["SUPER_", "SUPER_", "CHR", "chr_", "LG"]
+
+
+def _put_scaffold_tag(draw, frag_rows, tag):
+    """scaffold-level tags sit on the first piece or on every piece (both occur in real maps)"""
+    if draw(st.booleans()):
+        for r in frag_rows:
+            if tag not in r[5]:
+                r[5].append(tag)
+    else:
+        if tag not in frag_rows[0][5]:
+            frag_rows[0][5].append(tag)
+
+
+@st.composite
+def tagged_case(
+    draw,
+    two_haplotypes=None,
+    target_mode=None,
+    max_scaffolds=6,
+    max_contigs=8,
+    small_texel=False,
+    piece_tag_weight=6,  # 1 in N pieces gets Haplotig / Contaminant / FalseDuplicate
+    unloc_weight=4,
+    many_painted=False,
+    exact=False,  # t = 1 and no cuts inside contigs: every length is known exactly
+    fasta=None,  # plain FASTA to derive the input from (names already haplotype-prefixed if wanted)
+):
+    if exact:
+        t = 1.0
+    else:
+        t = draw(texel(small=small_texel))
+    two = draw(st.integers(0, 2)) == 0 if two_haplotypes is None else two_haplotypes
+    haps = draw(st.sampled_from([["Hap1", "Hap2"], ["hap1", "hap2"], ["HAP1", "HAP2"], ["mat", "pat"]])) if two else []
+    if fasta is not None:
+        from vf.props.c03 import fasta_input_plain
+
+        inp = fasta_input_plain(fasta)
+    elif two:
+        inp = draw(input_assembly(t, max_scaffolds=max_scaffolds, max_contigs=max_contigs, shape="fasta",
+                                  min_scaffolds=2, strands="fwd"))
+        for i, sc in enumerate(inp):
+            hp = haps[i % 2] if i < 2 else draw(st.sampled_from(haps))
+            hp = draw(st.sampled_from([hp, hp.upper(), hp.lower()]))
+            new = f"{hp}_scaffold_{i + 1}"
+            for r in sc[1]:
+                if r[0] == "F":
+                    r[1] = new
+            sc[0] = new
+    else:
+        inp = draw(input_assembly(t, max_scaffolds=max_scaffolds, max_contigs=max_contigs,
+                                  min_scaffolds=3 if many_painted else 1))
+    hap_of = {}
+    for name, _rows in inp:
+        hap_of[name] = next((h for h in haps if name.lower().startswith(h.lower() + "_")), None)
+
+    pieces = []
+    for name, rows in inp:
+        pieces.extend(draw(scaffold_pieces(name, rows, t, cut=True, max_cuts=3)))
+    if exact:
+        # snap piece boundaries to contig boundaries (t = 1: every coordinate is on the grid)
+        pieces = []
+        for name, rows in inp:
+            spans = [sp for sp, r in zip(ref.layout(rows), rows) if r[0] == "F"]
+            start = 1
+            for k, (s, e) in enumerate(spans):
+                last = k == len(spans) - 1
+                if last or draw(st.integers(0, 2)) == 0:
+                    pieces.append([name, start, e])
+                    start = spans[k + 1][0] if not last else None
+
+    # arrange pieces into Pretext scaffolds; in two-haplotype maps painted scaffolds follow the
+    # homologue-group layout: one first-haplotype scaffold, then 0-2 second-haplotype scaffolds
+    order = list(draw(st.permutations(range(len(pieces)))))
+    scaffolds = []  # dicts: rows (fragment rows), painted, hap, name_tag, singleton
+    idx = 0
+    while idx < len(order):
+        size = draw(st.sampled_from([1, 1, 2, 3, 4] if not many_painted else [1, 1, 1, 2]))
+        group = order[idx : idx + size]
+        idx += size
+        painted = draw(st.integers(0, 3)) > 0 if many_painted else draw(st.booleans())
+        rows = []
+        for pi in group:
+            name, s, e = pieces[pi]
+            rows.append(["F", name, s, e, draw(st.sampled_from([1, 1, -1])), ["Painted"] if painted else []])
+        if two and not painted:
+            # an unplaced Pretext scaffold draws its pieces from input scaffolds of one haplotype
+            h0 = hap_of[rows[0][1]]
+            rows = [r for r in rows if hap_of[r[1]] == h0]
+            for pi in group:
+                if hap_of[pieces[pi][0]] != h0:
+                    order.append(pi)
+        scaffolds.append({"rows": rows, "painted": painted, "hap": None, "name_tag": None})
+
+    painted_sc = [s for s in scaffolds if s["painted"]]
+    unpainted_sc = [s for s in scaffolds if not s["painted"]]
+    if two:
+        # assign haplotypes to painted scaffolds in groups H1 (H2){0,2}
+        ordered = []
+        k = 0
+        while k < len(painted_sc):
+            first = painted_sc[k]
+            first["hap"] = haps[0]
+            ordered.append(first)
+            k += 1
+            n2 = draw(st.integers(0, 2))
+            took = 0
+            while took < n2 and k < len(painted_sc):
+                painted_sc[k]["hap"] = haps[1]
+                ordered.append(painted_sc[k])
+                k += 1
+                took += 1
+            if took == 0:
+                first["singleton"] = True
+        painted_sc = ordered
+    # interleave unpainted scaffolds at drawn positions, keeping the painted order
+    final = list(painted_sc)
+    for s in unpainted_sc:
+        final.insert(draw(st.integers(0, len(final))), s)
+
+    # name tags (unique per haplotype), at most one per scaffold
+    pool = {h: list(NAME_TAGS) for h in (haps or [None])}
+    for s in final:
+        if s["painted"] and draw(st.integers(0, 4)) == 0:
+            p = pool[s["hap"]]
+            if p:
+                s["name_tag"] = p.pop(draw(st.integers(0, len(p) - 1)))
+
+    # Target mode
+    tm = draw(st.integers(0, 4)) == 0 if target_mode is None else target_mode
+    target_from = draw(st.integers(0, len(final) - 1)) if tm and final else None
+
+    out = []
+    for n, s in enumerate(final):
+        rows = s["rows"]
+        if not rows:
+            continue
+        if s["hap"]:
+            spelled = draw(st.sampled_from([s["hap"], s["hap"], s["hap"].upper()]))
+            _put_scaffold_tag(draw, rows, spelled)
+        if s.get("singleton"):
+            _put_scaffold_tag(draw, rows, "Singleton")
+        if s["name_tag"]:
+            _put_scaffold_tag(draw, rows, s["name_tag"])
+        # in Target mode every painted (i.e. curated) scaffold is a target; unpainted ones may be left untagged
+        if target_from is not None and n >= target_from and (n == target_from or s["painted"] or draw(st.booleans())):
+            _put_scaffold_tag(draw, rows, "Target")
+        # piece tags
+        n_unloc = 0
+        for k, r in enumerate(rows):
+            if draw(st.integers(0, piece_tag_weight - 1)) == 0:
+                r[5].append(draw(st.sampled_from(["Haplotig", "Haplotig", "Contaminant", "FalseDuplicate"])))
+            elif s["painted"] and len(rows) > 1 and n_unloc < len(rows) - 1 and draw(st.integers(0, unloc_weight - 1)) == 0:
+                r[5].append("Unloc")
+                n_unloc += 1
+        plain_rows = []
+        for k, r in enumerate(rows):
+            if k:
+                plain_rows.append(list(PRETEXT_GAP))
+            plain_rows.append(r)
+        out.append([f"Scaffold_{len(out) + 1}", plain_rows])
+    return {
+        "t": texel_str(t),
+        "input": inp,
+        "map": out,
+        "prefix": draw(st.sampled_from(PREFIXES)),
+        "haps": haps,
+    }
